@@ -24,7 +24,6 @@ additional Fiddle-specific context to the exception message. This approach was
 inspired by Gin's exception logic.
 """
 
-import contextlib
 import functools
 import logging
 from typing import Callable
@@ -67,16 +66,29 @@ def decorate_exception(exception, message: str):
     return exception
 
 
-@contextlib.contextmanager
-def try_with_lazy_message(lazy_message: Callable[[], str]):
-  """Context manager which reraises exceptions."""
-  try:
-    yield
-  except Exception as exc:  # pylint: disable=broad-except
+class try_with_lazy_message:  # pylint: disable=invalid-name
+  """Context manager which reraises exceptions.
+
+  Exceptions (but not other `BaseException`s) raised by the body are re-raised
+  as a proxy of the same class, whose message has `lazy_message()` appended.
+
+  This is a class rather than a `contextlib.contextmanager` generator, because
+  an exception derived from `StopIteration` cannot be raised from inside a
+  generator (PEP 479 turns it into a `RuntimeError`).
+  """
+
+  def __init__(self, lazy_message: Callable[[], str]):
+    self._lazy_message = lazy_message
+
+  def __enter__(self):
+    return None
+
+  def __exit__(self, exc_type, exc, traceback):
+    if not isinstance(exc, Exception):
+      return False
     try:
-      message = lazy_message()
-    except:  # pylint: disable=broad-except
+      message = self._lazy_message()
+    except:  # pylint: disable=bare-except
       logging.exception('Formatting the debug information failed.')
-      raise exc from None
-    else:
-      raise decorate_exception(exc, message) from None
+      return False
+    raise decorate_exception(exc, message) from None
